@@ -178,3 +178,13 @@ func (c *CBuf) CGrowTwice(n int) int {
 	b := c.CGrow(2 * n)
 	return a*10 + b
 }
+
+// uninitialised memory with an exact capacity (dirtmake.Bytes) is a method of the allocator here
+func (c *CBuf) CDirty(n, k int) int {
+	if c.RO {
+		c.Buf = ext.Dirty(n, k)
+	} else {
+		c.Buf = ext.Alloc(n, k)
+	}
+	return cap(c.Buf) - len(c.Buf)
+}
